@@ -217,6 +217,26 @@ func (f *VerifFlood) AddPeer(id []byte, role byte, connType byte, protocols ...u
 	return len(f.peers) - 1
 }
 
+// SetAllowedRoots sets the node's validator (root) id set; call it before adding peers.
+func (f *VerifFlood) SetAllowedRoots(ids ...[]byte) {
+	var l []module.PeerID
+	for _, id := range ids {
+		l = append(l, NewPeerID(id))
+	}
+	f.p2p.allowedRoots.ClearAndAdd(l...)
+}
+
+// AddPeerClaiming makes a connected peer that CLAIMED the given role flags in its query: the claim is
+// stored as the received role and the peer's role is resolved against the node's role sets exactly as
+// handleQuery / handleQueryResult do (resolveRole with onlyUnSet). Returns the index and the resolved role.
+func (f *VerifFlood) AddPeerClaiming(id []byte, claimed byte, connType byte, protocols ...uint16) (int, byte) {
+	i := f.AddPeer(id, 0, connType, protocols...)
+	p := f.peers[i]
+	p.setRecvRole(PeerRoleFlag(claimed))
+	p.setRole(f.p2p.resolveRole(PeerRoleFlag(claimed), p.ID(), true))
+	return i, byte(p.Role())
+}
+
 // OnPacket hands a received packet to PeerToPeer.onPacket as Peer.receiveRoutine does.
 func (f *VerifFlood) OnPacket(peer int, pkt *Packet) {
 	p := f.peers[peer]
